@@ -16,13 +16,16 @@ var h04Lists = [][]string{
 	{"a", "bb", "ccc", "dddd", "eeeee", "ffffff", "ggggggg"},
 	{"'tis", "of", "thee"},   // leading punctuation: strings.Title gives 'Tis
 	{"jean-luc", "o'neil"},   // multi-part words: strings.Title capitalises every part
+	{"polish", "one", "Polish", "two"}, // a capitalised twin listed after its lower-case form
 	{"", "ab"}, // contains the empty word (known finding D6)
 }
 
 var h04Schemes = []CapScheme{CSNone, CSFirst, CSAll, CSOne, CapScheme("sometimes"), CSRandom}
 
 // separator kinds: 0..2 constant SeparatorChar, 3.. separator functions
-const h04NSep = 7
+const h04NSep = 9
+
+var h04Counter = []string{"", "1", "2", "3", "4", "5", "6", "7", "8", "9"}
 
 func h04Separator(kind int) (char string, sf SFFunction, rec *CharRecipe) {
 	switch kind {
@@ -38,11 +41,20 @@ func h04Separator(kind int) (char string, sf SFFunction, rec *CharRecipe) {
 		return "", SFDigits1, &CharRecipe{Length: 1, Allow: Digits}
 	case 5:
 		return "", SFDigitsNoAmbiguous2, &CharRecipe{Length: 2, Allow: Digits, Exclude: Ambiguous}
+	case 7:
+		// a function AND a separator character: the function wins, and SFNone yields no separator
+		return "-", SFNone, nil
+	case 8:
+		// a deterministic function that reports zero entropy but numbers the gaps
+		n := 0
+		return "", func() (string, FloatE) { n++; return h04Counter[n%10], 0 }, nil
 	default:
 		r := CharRecipe{Length: 1, AllowChars: "é✓!"}
 		return "", NewSFFunction(r), &r
 	}
 }
+
+var h04SepKind int
 
 func h04HasEmpty(ws []string) bool {
 	for _, w := range ws {
@@ -65,15 +77,23 @@ func h04AllCapitalizable(ws []string) bool {
 func h04Recipe() (WLRecipe, *CharRecipe, []string) {
 	li := vChoice("list", vParam("lists", len(h04Lists)))
 	input := h04Lists[li]
-	wl, err := NewWordList(input)
+	// the list is built from the caller's own slice, which the caller then
+	// recycles: the word list must not alias it
+	mine := append([]string(nil), input...)
+	wl, err := NewWordList(mine)
 	vAssume(err == nil)
+	for i := range mine {
+		mine[i] = "RECYCLED"
+	}
 	var r WLRecipe
 	r.list = wl
 	r.Length = vLen("length", vParam("Lmin", 1), vParam("L", 3))
 	r.Capitalize = h04Schemes[vChoice("scheme", vParam("schemes", len(h04Schemes)))]
-	char, sf, rec := h04Separator(vChoice("separator", vParam("seps", h04NSep)))
+	sepKind := vChoice("separator", vParam("seps", h04NSep))
+	char, sf, rec := h04Separator(sepKind)
 	r.SeparatorChar = char
 	r.SeparatorFunc = sf
+	h04SepKind = sepKind
 	return r, rec, input
 }
 
@@ -81,8 +101,21 @@ func h04Recipe() (WLRecipe, *CharRecipe, []string) {
 func H04() {
 	r, sepRec, input := h04Recipe()
 	words := r.list.words
+	for _, w := range words {
+		vAssert(w != "RECYCLED", "the word list aliases the slice passed to NewWordList: it changed when the caller reused its slice")
+	}
 	L := r.Length
 	size := len(words)
+	// optionally, an earlier Generate with another scheme on the same list
+	if vParam("prime", 0) == 1 && (r.Capitalize == CSNone || r.Capitalize == CapScheme("sometimes")) {
+		pr := r
+		pr.Capitalize = CSAll
+		vSummary(true)
+		pr.Generate()
+		vSummary(false)
+		vReach("primed")
+	}
+	base := vDrawCount()
 	vSample("words", strings.Join(words, ","))
 	vSample("scheme", string(r.Capitalize))
 	if h04HasEmpty(input) {
@@ -105,7 +138,8 @@ func H04() {
 
 	// ---- C04: the draw structure ----
 	nd := vDrawCount()
-	pos := 0
+	pos := base
+	counter := 0
 	capAt := make([]bool, L)
 	switch r.Capitalize {
 	case CSFirst:
@@ -141,6 +175,13 @@ func H04() {
 		natoms++
 		if i < L-1 {
 			sep := r.SeparatorChar
+			switch h04SepKind {
+			case 7:
+				sep = "" // the separator function decides, and it yields nothing
+			case 8:
+				counter++
+				sep = h04Counter[counter%10]
+			}
 			if sepRec != nil {
 				sep = ""
 				for j := 0; j < sepLen; j++ {
